@@ -156,6 +156,10 @@ pub fn eval_op(
             })
             .collect(),
         UOp::MapMemo { m } => input.iter().map(|r| f_memo(f_memo_key(r, *m))).collect(),
+        UOp::SplitZip { m, filter_left: _ } => {
+            let kept = input.iter().filter(|r| r.v.rem_euclid(*m) != 0).count();
+            vec![f_zip_anon(); kept.min(input.len())]
+        }
         UOp::Replay { rounds, body, stop_m, stop_r } => {
             let mut st = LState::default();
             let mut round = 0usize;
@@ -233,9 +237,22 @@ pub fn eval_program(p: &Program) -> (Expect, HashMap<Var, Vec<Rec>>) {
                 let o = eval_op(v, op, *out, None, &mut ex);
                 env.insert(*out, o);
             }
-            Stmt::Join { a, b, out, kind, .. } => {
+            Stmt::Join { a, b, out, kind, ship, .. } => {
                 let l = env.remove(a).unwrap();
-                let r = env.remove(b).unwrap();
+                let mut r = env.remove(b).unwrap();
+                if *ship == JoinShip::KeyedMixed {
+                    // the right side is first reduced per key (sum of v, xor of ids)
+                    let mut m: BTreeMap<u32, Rec> = BTreeMap::new();
+                    for x in r {
+                        match m.get_mut(&x.k) {
+                            None => {
+                                m.insert(x.k, x);
+                            }
+                            Some(a) => rec_reduce(Agg::Sum, a, x),
+                        }
+                    }
+                    r = m.into_values().collect();
+                }
                 let o = join(&l, &r, *kind);
                 ex.push(*out, &o);
                 env.insert(*out, o);
